@@ -1137,6 +1137,35 @@ Proof.
   destruct (IH _ C A) as [A' B']. split; [exact A'|congruence].
 Qed.
 
+Lemma ep_flush_spec e :
+  c_nr (e_ch (ep_flush e [])) = c_nr (e_ch e) /\ e_f (ep_flush e []) = e_f e /\
+  c_zlb (e_ch (ep_flush e [])) = None /\ c_pw (e_ch (ep_flush e [])) = c_pw (e_ch e) /\
+  c_q (e_ch (ep_flush e [])) = c_q (e_ch e) /\ c_cwnd (e_ch (ep_flush e [])) = c_cwnd (e_ch e) /\
+  e_wmax (ep_flush e []) = e_wmax e /\
+  ((c_zlb (e_ch e) = None /\ e_sent (ep_flush e []) = e_sent e) \/
+   (c_zlb (e_ch e) <> None /\ e_sent (ep_flush e []) = e_sent e ++ [mkK None 0 (c_ns (e_ch e)) (c_nr (e_ch e))])).
+Proof.
+  unfold ep_flush, flush_ack. destruct (c_zlb (e_ch e)) as [d|] eqn:E; cbn; splits; auto.
+  - right. split; [discriminate|reflexivity].
+  - left. split; [reflexivity|apply app_nil_r].
+Qed.
+
+(* flushed: a packet carrying the current Nr has been written since [old] and the ZLB timer is disarmed *)
+Definition flushed_since (old : list pkt) (e : endpoint) : Prop :=
+  c_zlb (e_ch e) = None /\
+  exists new, e_sent e = old ++ new /\ new <> [] /\ forall d, last_nr d new = c_nr (e_ch e).
+
+Lemma ep_flush_acked f now old e : acked_since f now old e -> flushed_since old (ep_flush e []).
+Proof.
+  intros (new & Hs & H). destruct (ep_flush_spec e) as (Nr & _ & Z0 & _ & _ & _ & _ & S).
+  split; [exact Z0|]. destruct S as [[Hz Se]|[Hz Se]].
+  - destruct H as [H|[Hn Hl]]; [congruence|]. exists new. rewrite Se, Nr. auto.
+  - exists (new ++ [mkK None 0 (c_ns (e_ch e)) (c_nr (e_ch e))]).
+    rewrite Se, Hs, app_assoc. splits; auto.
+    + destruct new; discriminate.
+    + intros d. rewrite last_nr_app, Nr. reflexivity.
+Qed.
+
 (* EVERY non-ZLB message for a registered tunnel passes through the receive step, whatever its type, its
    session id and whatever its handler does afterwards (m_replies, m_removes arbitrary): Nr moves exactly
    by the in-order rule and an acknowledgement is owed (timer armed) or already on its way. *)
@@ -1145,7 +1174,9 @@ Lemma dispatch_acks_everything n m now b :
   let n' := node_dispatch n m now in
   let c := e_ch (n_ep n) in
   c_nr (e_ch (n_ep n')) = (if k_ns (m_pkt m) =? c_nr c then u16 (c_nr c + 1) else c_nr c) /\
-  acked_since (e_f (n_ep n)) now (e_sent (n_ep n)) (n_ep n').
+  (if (k_ns (m_pkt m) =? c_nr c) && m_removes m
+   then flushed_since (e_sent (n_ep n)) (n_ep n')        (* teardown: acknowledged before the tunnel goes *)
+   else acked_since (e_f (n_ep n)) now (e_sent (n_ep n)) (n_ep n')).
 Proof.
   intros Hk Ht Hb. unfold node_dispatch. rewrite Hk, Ht. cbn [andb].
   unfold ep_deliver.
@@ -1164,9 +1195,12 @@ Proof.
   assert (N1 : c_nr (e_ch e1) = (if k_ns (m_pkt m) =? c_nr (e_ch (n_ep n)) then u16 (c_nr (e_ch (n_ep n)) + 1)
                                  else c_nr (e_ch (n_ep n)))).
   { cbn [e1 e_ch]. rewrite Hnr, Hh. reflexivity. }
-  destruct h; cbn [n_ep].
+  rewrite <- Hh in N1 |- *. destruct h; cbn [n_ep andb].
   - destruct (ep_submits_acked (e_f (n_ep n)) now (e_sent (n_ep n)) (m_replies m) e1 eq_refl A1) as [A2 N2].
-    split; [rewrite N2; exact N1|exact A2].
+    destruct (m_removes m).
+    + destruct (ep_flush_spec (ep_submits e1 (m_replies m) now)) as (Nr & _).
+      split; [rewrite Nr, N2; exact N1|]. eapply ep_flush_acked; exact A2.
+    + split; [rewrite N2; exact N1|exact A2].
   - split; [exact N1|exact A1].
 Qed.
 
@@ -1345,13 +1379,21 @@ Qed.
 Lemma submits_win W now rs : forall e, win_ok W e -> win_ok W (ep_submits e rs now).
 Proof. unfold ep_submits. induction rs as [|r rs IH]; intros e H; simpl; auto using submit_win. Qed.
 
+Lemma flush_win W e : win_ok W e -> win_ok W (ep_flush e []).
+Proof.
+  intros [[M W1 C P I A] Wm Pw]. destruct (ep_flush_spec e) as (_ & F & _ & Pw' & Q & Cw & Wm' & _).
+  constructor; [constructor|..]; try congruence; rewrite ?F, ?Q, ?Cw, ?Pw', ?Wm'; auto.
+Qed.
+
 Lemma node_step_win W n ev : win_ok W (n_ep n) -> win_ok W (n_ep (node_step n ev)).
 Proof.
-  intros H. destruct ev as [m now|now]; cbn [node_step n_ep]; [|apply tick_win; exact H].
+  intros H. destruct ev as [m now|now]; cbn [node_step].
+  2: { destruct (n_known n); cbn [n_ep]; [apply tick_win; exact H|exact H]. }
   unfold node_dispatch. destruct (n_known n && m_tid_ok m); [|exact H].
   pose proof (deliver_win false W _ (m_pkt m) now None H) as D.
   destruct (ep_deliver false (n_ep n) (m_pkt m) now None) as [e1 ob]. cbn [fst] in D.
-  destruct ob as [| |h o er| |]; cbn [n_ep]; auto. destruct h; cbn [n_ep]; auto using submits_win.
+  destruct ob as [| |h o er| |]; cbn [n_ep]; auto. destruct h; cbn [n_ep]; auto.
+  destruct (m_removes m); auto using submits_win, flush_win.
 Qed.
 
 Lemma node_run_win W : forall evs n, win_ok W (n_ep n) -> win_ok W (n_ep (node_run n evs)).
@@ -1668,3 +1710,15 @@ Proof.
   intros Hz Hlt H. destruct (tick_before_zlb _ _ _ _ _ _ _ Hz Hlt H) as (Z1 & _ & r & -> & Hr).
   cbv zeta. destruct (runner_next_bounds (Some r) t1) as [_ E]. rewrite E. split; [lia|exact Z1].
 Qed.
+
+(* an in-order StopCCN (handler unregisters the tunnel) is acknowledged in the very step that accepts it,
+   with no Tick at all; a later Tick event does nothing (the runner is gone) *)
+Definition stop_msgs : list nevent :=
+  [ NMsg (mkM true (mkK (Some 1) 0 0 0) [(7, 0)] false) 0;      (* SCCRQ-like, answered *)
+    NMsg (mkM true (mkK (Some 4) 0 1 1) [] true) 5;              (* StopCCN *)
+    NTick 500 ].
+Lemma stop_example :
+  let n := node_run (mkN true (new_endpoint 0 0 0 0 16 0 0)) stop_msgs in
+  n_known n = false /\ c_zlb (e_ch (n_ep n)) = None /\
+  map (fun p => (k_body p, k_ns p, k_nr p)) (e_sent (n_ep n)) = [(Some 7, 0, 1); (None, 1, 2)].
+Proof. vm_compute. splits; reflexivity. Qed.
